@@ -46,7 +46,13 @@ TERMS = [
 
 
 def jobs(tier):
-    return [(c, tier) for c in MESH_CLASSES]
+    out = [(c, tier) for c in MESH_CLASSES]
+    if tier != 'quick':
+        from ..model import DIM
+        for c in MESH_CLASSES:
+            for sz in F.SMALL_SIZES[DIM[c]]:
+                out.append((c, tier, sz))
+    return out
 
 
 def _rows(w, kind, obj, P):
@@ -56,15 +62,17 @@ def _rows(w, kind, obj, P):
 
 
 def job(args):
-    cls, tier = args
+    cls, tier = args[0], args[1]
+    sizes = args[2] if len(args) > 2 else None
     sm = SourceModel()
-    w = World(sm, cls)
+    w = World(sm, cls, sizes=sizes)
     obs = []
     samples = []
     units = set()
+    szt = f" sizes={sizes}" if sizes else ''
 
     def ob(rule, construct, ok, detail='', loc=''):
-        obs.append(dict(rule=rule, construct=construct, ok=bool(ok), detail=str(detail)[:1500], loc=loc, nontrivial=True))
+        obs.append(dict(rule=rule, construct=construct, ok=bool(ok), detail=(str(detail) + szt)[:1500], loc=loc, nontrivial=True))
 
     w.volume()
     units.add(f"mesh.{cls}._getCellVolumes")
@@ -226,7 +234,16 @@ def job(args):
     red = getattr(w.interp, 'reductions', {})
     ok = False
     detail = 'result is not a single sum reduction'
-    if isinstance(val, Rat) and len(val.fac) == 1 and val.coef == 1:
+    ncells = None
+    if not w.symbolic:
+        ncells = 1
+        for n_ in w.N:
+            ncells *= n_.as_int()
+    if ncells == 1:
+        P1 = tuple(ONE for _ in w.N)
+        ok = isinstance(val, Rat) and is_zero(val - w.vol_at(P1) * Rat.atom(('phi',) + P1))
+        detail = f"single-cell mesh: integral = {val}"
+    elif isinstance(val, Rat) and len(val.fac) == 1 and val.coef == 1:
         key = atom_key(next(iter(val.atoms())))
         if isinstance(key, tuple) and key[0] == 'reduce' and key[1] == 'sum' and key in red:
             arr = red[key]
